@@ -211,6 +211,14 @@ func cmdEdits(args []string) {
 			}
 			out = append(out, N{"id": b["id"].(string) + "/" + op, "text": text, "files": b["files"], "mode": "proto", "expect": "any"})
 		}
+		// every prefix of the program that ends after a token (the file ends there, without a final line end)
+		for n, ti := range idx {
+			var sb strings.Builder
+			for i := 0; i <= ti; i++ {
+				sb.WriteString(pieces[i].(N)["s"].(string))
+			}
+			out = append(out, N{"id": b["id"].(string) + fmt.Sprintf("/prefix%d", n), "text": strings.TrimRight(sb.String(), "\n"), "files": b["files"], "mode": "proto", "expect": "any"})
+		}
 		for n, ti := range idx {
 			emit(fmt.Sprintf("del%d", n), build(func(i int, s string) string {
 				if i == ti {
